@@ -667,3 +667,44 @@ extern "C" void harness_aelorder() {
   VA(IsValidAelOrder(res, far) == (far.curr_x > res.curr_x));
   verif_reach();
 }
+
+// C05 (open ends at horizontals): DoHorizontal on the LAST, horizontal segment of an open path (its top vertex is the open end) must
+// not interact with any edge beyond that end point: the neighbour in the AEL is crossed (IntersectEdges) exactly when it stands within
+// the horizontal's extent, and the horizontal is then removed from the AEL. The neighbour is a closed, non-horizontal edge of the
+// clip polygon; IntersectEdges, the join checks and the output operations are recorders.
+static int g_ie_calls; static const Active* g_ie_a; static const Active* g_ie_b; static Point64 g_ie_pt; static int g_addout;
+extern "C" __attribute__((noinline)) void stub_intersectedges_rec(ClipperBase* s, Active& e1, Active& e2, const Point64& pt) { g_ie_calls++; g_ie_a = &e1; g_ie_b = &e2; g_ie_pt = pt; }
+extern "C" __attribute__((noinline)) void stub_checkjoin_rec(ClipperBase* s, Active& e, const Point64& pt, bool b) {}
+extern "C" __attribute__((noinline)) OutPt* stub_addoutpt_rec(ClipperBase* s, const Active& e, const Point64& pt) { g_addout++; return nullptr; }
+extern "C" __attribute__((noinline)) void stub_addtrialhorzjoin_rec(ClipperBase* s, OutPt* op) {}
+extern "C" void harness_dohorizontal_open_end() {
+  Clipper64& c = *new Clipper64();
+  // open path v0 -> v1, horizontal; the sweep reaches it as a left-to-right or right-to-left horizontal ending at the open end v1
+  Vertex v0, v1; int64_t y = nd_range(-1000, 1000);
+  v0.pt = Point64(nd_range(-1000, 1000), y); v1.pt = Point64(nd_range(-1000, 1000), y); ASSUME(v0.pt.x != v1.pt.x);
+  v0.next = &v1; v0.prev = &v1; v1.next = &v0; v1.prev = &v0;
+  v0.flags = VertexFlags::OpenStart | VertexFlags::LocalMin; v1.flags = VertexFlags::OpenEnd | VertexFlags::LocalMax;
+  LocalMinima lm_open(&v0, PathType::Subject, true);
+  Active& horz = *new Active(); horz.bot = v0.pt; horz.top = v1.pt; horz.curr_x = v0.pt.x; horz.vertex_top = &v1; horz.local_min = &lm_open; horz.wind_dx = 1;
+  horz.dx = v1.pt.x > v0.pt.x ? -1.7976931348623157e308 : 1.7976931348623157e308;    // SetDx of a horizontal
+  horz.outrec = nullptr;                                                          // cold: no output operations needed
+  // a closed clip edge standing somewhere on the scanline, further along the AEL
+  Vertex w0, w1, w2; w0.pt = Point64(nd_range(-1000, 1000), y + 50); w1.pt = Point64(nd_range(-1000, 1000), y - 50); w2.pt = Point64(w1.pt.x + 7, y - 90);
+  w0.next = &w1; w1.next = &w2; w2.next = &w0; w0.prev = &w2; w1.prev = &w0; w2.prev = &w1; w0.flags = VertexFlags::LocalMin; w1.flags = VertexFlags::Empty; w2.flags = VertexFlags::LocalMax;
+  LocalMinima lm_clip(&w0, PathType::Clip, false);
+  Active& e = *new Active(); e.bot = w0.pt; e.top = w1.pt; e.vertex_top = &w1; e.local_min = &lm_clip; e.wind_dx = 1; e.outrec = nullptr;
+  e.curr_x = nd_range(-1000, 1000); e.dx = 0.0;
+  bool ltr = v1.pt.x > v0.pt.x;
+  // AEL order is by curr_x: the clip edge is on the side the horizontal heads to, at or beyond the horizontal's start
+  if (ltr) { ASSUME(e.curr_x >= horz.curr_x); c.actives_ = &horz; horz.prev_in_ael = nullptr; horz.next_in_ael = &e; e.prev_in_ael = &horz; e.next_in_ael = nullptr; }
+  else { ASSUME(e.curr_x <= horz.curr_x); c.actives_ = &e; e.prev_in_ael = nullptr; e.next_in_ael = &horz; horz.prev_in_ael = &e; horz.next_in_ael = nullptr; }
+  ASSUME(e.curr_x != v1.pt.x);                      // (an edge standing exactly on the end point is decided by the out-slope rule: not covered)
+  g_ie_calls = 0;
+  c.DoHorizontal(horz);
+  bool within = ltr ? e.curr_x < v1.pt.x : e.curr_x > v1.pt.x;
+  VA(g_ie_calls == (within ? 1 : 0));
+  if (within) { VA(g_ie_pt.x == e.curr_x && g_ie_pt.y == y); VA((ltr ? g_ie_a : g_ie_b) == &horz && (ltr ? g_ie_b : g_ie_a) == &e); }
+  // the finished open horizontal has left the AEL, the clip edge stays
+  VA(c.actives_ == &e && e.prev_in_ael == nullptr && e.next_in_ael == nullptr);
+  verif_reach();
+}
